@@ -280,3 +280,7 @@ def run(ctx):
         r.check(bool(drops), "WriteQueues::pop/drops-snapshot-keys-for-standard-events", where(pop), "standard events remove their key from the pending snapshots (so the syncing remote must be receiving standard events)")
         r.check(bool(links) or not drops, "implicit-link-sync/link-registered-before-sync-is-forwarded", syncs[0].loc(), "the link is registered with the write task before the sync request reaches the lane",
                 "read_task forwards a sync request to the lane without registering the link; the remote is only linked when its first sync response arrives, but WriteQueues::pop may emit standard events first and drops their keys from the remote's snapshot: those keys never reach it")
+
+    with ctx.rule("C03.R11", "T4", "the per-lane uplink state (which holds a pending sync's events and its synced flag) is dropped when an unlink is accepted, never when the queued unlinked is written", floor=4) as r:
+        uplinks.uplink_state_lifetime(r, ctx)
+
